@@ -7,6 +7,7 @@ import (
 	"bytes"
 	"errors"
 	"fmt"
+	"hash/fnv"
 	"io"
 	"os"
 	"strings"
@@ -165,10 +166,19 @@ func (e *engine) runSeq(t *target, f fileSpec, id string, ops []op) {
 	if !c.Want(id) {
 		return
 	}
-	h, err := t.open(f.name)
+	// how the handle is obtained: a function of the case id, so that a replay takes the same way
+	modes := t.openModes()
+	hsum := fnv.New32a()
+	hsum.Write([]byte(id))
+	mode := modes[int(hsum.Sum32()%uint32(len(modes)))]
+	h, err := t.openVia(f.name, mode)
 	if err != nil {
-		c.Fail(id, "-", fmt.Sprintf("cannot open %s on %s: %v", f.name, t.label, err), id)
+		c.Fail(id, "-", fmt.Sprintf("cannot open %s on %s through %s: %v", f.name, t.label, mode, err), id)
 		return
+	}
+	e.count("open.via=" + mode)
+	for _, k := range t.regimes {
+		e.count(k)
 	}
 	size := int64(len(f.content))
 	lay, err := t.layout(h, len(f.content))
@@ -375,7 +385,7 @@ func (e *engine) runSeq(t *target, f fileSpec, id string, ops []op) {
 	c.Case(id, "rw.seq", append(lay, "cfg="+e.flags.String(), "ops="+opsString(ops))...)
 	// "wf1": the model driver confirms the file's layout lies in the domain of the C10 theorems
 	c.Impl(id, "wf1,"+strings.Join(impl, ","))
-	repro := fmt.Sprintf("fs=%s file=%s size=%d unit=%d ops=%s", t.label, f.name, size, t.unit, opsString(ops))
+	repro := fmt.Sprintf("fs=%s file=%s size=%d unit=%d open=%s ops=%s", t.label, f.name, size, t.unit, mode, opsString(ops))
 	if len(fails) == 0 {
 		c.OK(id)
 	}
@@ -446,6 +456,11 @@ func (e *engine) classifyOp(o op, pos, size, unit int64, closed bool) {
 			e.count("op.read.above-unit")
 		}
 		if !closed {
+			if pos > 1<<32 {
+				e.count("read.cursor-beyond-2^32")
+			} else if pos > 1<<31 {
+				e.count("read.cursor-beyond-2^31")
+			}
 			switch {
 			case pos >= size:
 				e.count("read.at-or-past-eof")
@@ -473,6 +488,11 @@ func (e *engine) classifyOp(o op, pos, size, unit int64, closed bool) {
 				base = pos
 			} else if o.whence == io.SeekEnd {
 				base = size
+			}
+			if t := base + o.off; t > 1<<32 {
+				e.count("seek.target-beyond-2^32")
+			} else if t > 1<<31 {
+				e.count("seek.target-beyond-2^31")
 			}
 			switch t := base + o.off; {
 			case t < 0:
@@ -569,6 +589,8 @@ func alphabet(s, u int64, full bool) []op {
 		{io.SeekStart, 0}, {io.SeekStart, 1}, {io.SeekStart, s - 1}, {io.SeekStart, s}, {io.SeekStart, s + 5}, {io.SeekStart, -1}, {io.SeekStart, u}, {io.SeekStart, 600},
 		{io.SeekCurrent, 0}, {io.SeekCurrent, 3}, {io.SeekCurrent, -3}, {io.SeekCurrent, u}, {io.SeekCurrent, -u}, {io.SeekCurrent, -(s + 10)},
 		{io.SeekEnd, 0}, {io.SeekEnd, -1}, {io.SeekEnd, -10}, {io.SeekEnd, -s}, {io.SeekEnd, -(s + 1)}, {io.SeekEnd, 7}, {io.SeekEnd, -u},
+		// cursors beyond 2^31 and 2^32 (a narrowed cursor or size computation shows only up there)
+		{io.SeekStart, 1<<32 + 1}, {io.SeekCurrent, 1 << 31},
 	}
 	if !full {
 		rd = []int64{0, 7, u, s + 4096}
@@ -576,6 +598,7 @@ func alphabet(s, u int64, full bool) []op {
 			{io.SeekStart, 1}, {io.SeekStart, s}, {io.SeekStart, u + 88}, {io.SeekStart, -1},
 			{io.SeekCurrent, -3}, {io.SeekCurrent, u},
 			{io.SeekEnd, -10}, {io.SeekEnd, 7}, {io.SeekEnd, -(s + 1)},
+			{io.SeekCurrent, 1 << 32},
 		}
 	}
 	var out []op
@@ -698,6 +721,32 @@ func (e *engine) run() {
 	t, err = buildSqfs(c.Scratch, c.Rng.Fork(), thorough, 4096, squashfs.FinalizeOptions{Compression: &squashfs.CompressorGzip{CompressionLevel: 6}}, "squashfs-zlib-mixed")
 	add(t, err, "squashfs-zlib-mixed")
 
+	// regime targets (regimes/C10.md): volumes inside a partition (non-zero start, one beyond 4 GiB of device offset),
+	// cluster chains that are not runs of consecutive clusters, ext4 with 4 KiB blocks and with an extent index level,
+	// squashfs with its default 128 KiB blocks inside a partition
+	addRegime := func(t *target, err error, what string) {
+		if err != nil {
+			c.Note("regime target %s not available: %v", what, err)
+			c.Stat("regime-target-unavailable." + what)
+			return
+		}
+		targets = append(targets, t)
+	}
+	for _, k := range []string{"fat12", "fat16", "fat32"} {
+		t, err := buildFatAt(k, c.Rng.Fork(), 0, true, k+"-frag")
+		addRegime(t, err, k+"-frag")
+	}
+	t, err = buildFatAt("fat16", c.Rng.Fork(), 1<<20, false, "fat16-start1M")
+	addRegime(t, err, "fat16-start1M")
+	t, err = buildFatAt("fat32", c.Rng.Fork(), 1<<32+1<<20+512, true, "fat32-start4G-frag")
+	addRegime(t, err, "fat32-start4G-frag")
+	t, err = buildExt4Regime(c.Rng.Fork(), 1<<20, 8, 0, "ext4-4k-start1M")
+	addRegime(t, err, "ext4-4k-start1M")
+	t, err = buildExt4Regime(c.Rng.Fork(), 0, 0, 1, "ext4-interleaved1")
+	addRegime(t, err, "ext4-interleaved1")
+	t, err = buildSqfsAt(c.Scratch, c.Rng.Fork(), thorough, 131072, squashfs.FinalizeOptions{Compression: &squashfs.CompressorGzip{CompressionLevel: 6}}, "squashfs-128k-start1M", 1<<20, true)
+	addRegime(t, err, "squashfs-128k-start1M")
+
 	e.probeWitnesses(targets)
 
 	// 1. sanity: sequential whole-file reads with a fixed odd buffer (the plainest history)
@@ -717,14 +766,14 @@ func (e *engine) run() {
 		for fi, f := range t.files {
 			s, u := int64(len(f.content)), int64(t.unit)
 			_ = fi
-			al := alphabet(s, u, true)
+			al := alphabet(s, u, !t.lite)
 			for i, a := range al {
 				e.runSeq(t, f, fmt.Sprintf("%s/%s/x1-%d", t.label, f.name, i), append([]op{a}, tail()...))
 				for j, b := range al {
 					e.runSeq(t, f, fmt.Sprintf("%s/%s/x2-%d-%d", t.label, f.name, i, j), append([]op{a, b}, tail()...))
 				}
 			}
-			if thorough {
+			if thorough && !t.lite {
 				small := alphabet(s, u, false)
 				for i, a := range small {
 					for j, b := range small {
